@@ -314,7 +314,11 @@ def _checkout(  # noqa: C901
     link = Link(links, callback=progress_callback)
     for change in diff.deleted:
         entry_path = fs.join(path, *change.old.key) if change.old.key != ROOT else path
-        _remove(entry_path, fs, change.old.in_cache, force=force, prompt=prompt)
+        in_cache = change.old.in_cache
+        if change.old.key == ROOT:
+            # removing the root removes everything below it too
+            in_cache = in_cache and all(c.old.in_cache for c in diff.deleted)
+        _remove(entry_path, fs, in_cache, force=force, prompt=prompt)
 
     failed = []
     hashes_to_update: list[tuple[str, HashInfo, dict]] = []
